@@ -453,4 +453,85 @@ func PrivateQueryFilter(_ any, ai peer.AddrInfo) bool
   props C15
   modifies nothing
   ensures result == (len(ai.Addrs) > 0)
+
+# ---- client / server mode (C13) ------------------------------------------------------
+immutable field IpfsDHT.auto
+guarded_by IpfsDHT.modeLk : IpfsDHT.mode
+directive callers setMode : handleLocalReachabilityChangedEvent
+directive callers moveToClientMode : setMode
+directive callers moveToServerMode : setMode, New
+func New(ctx context.Context, h host.Host, options ...Option) (*IpfsDHT, error)
+  constructor
+func makeDHT(h host.Host, cfg dhtcfg.Config) (*IpfsDHT, error)
+  constructor
+directive callers handleLocalReachabilityChangedEvent : startNetworkSubscriber
+immutable "io.EOF"
+
+func (dht *IpfsDHT) getMode() mode
+  props C13
+  modifies nothing
+  ensures [internal-reads-mode-under-lock] true
+
+func (dht *IpfsDHT) moveToServerMode() error
+  props C13
+  holds dht.modeLk
+  modifies dht.mode
+  ensures result == nil && dht.mode == modeServer
+
+func (dht *IpfsDHT) moveToClientMode() error
+  props C13
+  holds dht.modeLk
+  ghostvar $dir network.Direction = 0
+  ghostvar $server bool = false
+  modifies dht.mode
+  ensures result == nil && dht.mode == modeClient
+  ghost at before call(Stat): assert($recv == s)
+  ghost at call(Stat): $dir = $ret0.Direction
+  ghost at before call(Reset): assert($recv == s && $dir == network.DirInbound)
+
+func (dht *IpfsDHT) setMode(m mode) error
+  props C13
+  modifies dht.mode
+  ensures [mode-set] imp(result == nil && (m == modeServer || m == modeClient), dht.mode == m)
+  ensures [unknown-mode-refused] imp(m != modeServer && m != modeClient && m != old(dht.mode), result != nil)
+
+func handleLocalReachabilityChangedEvent(dht *IpfsDHT, e event.EvtLocalReachabilityChanged)
+  props C13
+  modifies *
+  ghost at before call(setMode): assert(imp(e.Reachability == network.ReachabilityPublic, $arg0 == modeServer)); assert(imp(e.Reachability == network.ReachabilityPrivate, $arg0 == modeClient)); assert(imp(e.Reachability == network.ReachabilityUnknown, $arg0 == ite(dht.auto == ModeAutoServer, modeServer, modeClient)))
+
+func (dht *IpfsDHT) startNetworkSubscriber() error
+  props C13
+  modifies *
+  ghost at append(evts): assert(dht.auto == ModeAuto || dht.auto == ModeAutoServer)
+
+funclit 0 in (dht *IpfsDHT) startNetworkSubscriber() error
+  props C13 C12
+  ghost at before call(handleLocalReachabilityChangedEvent): assert(dht.auto == ModeAuto || dht.auto == ModeAutoServer)
+
+func (dht *IpfsDHT) handleNewStream(s network.Stream)
+  props C13 C09
+  ghostvar $ok bool = false
+  modifies *
+  ghost at call(handleNewMessage): $ok = $ret0
+  ghost at before call(Close): assert($ok)
+  ghost at before call(Reset): assert(!$ok)
+
+# the mode is (re)checked under its lock before EVERY message is read; false is
+# returned on every failure, true only on a clean end of stream
+func (dht *IpfsDHT) handleNewMessage(s network.Stream) bool
+  props C13 C09
+  ghostvar $mode mode = 0
+  ghostvar $rerr error = nil
+  ghostvar $h dhtHandler = nil
+  ghostvar $herr error = nil
+  modifies *
+  ensures [internal-true-only-on-eof] imp(result, $rerr == io.EOF)
+  ghost at call(getMode): $mode = $ret0
+  ghost at before call(ReadMsg): assert($mode == modeServer)
+  ghost at call(ReadMsg): $rerr = $ret1; $mode = 0
+  ghost at call(handlerForMsgType): $h = $ret0
+  ghost at before call(handler): assert($h != nil && $rerr == nil)
+  ghost at call(handler): $herr = $ret1
+  ghost at before call(WriteMsg): assert($herr == nil && $arg1 != nil)
 @*/
